@@ -44,6 +44,8 @@ structure Inst where
   decided : Bool
   stopped : Bool
   commits : List Msg
+  /-- root of `State.ProposalAcceptedForCurrentRound` (set when the instance ran the proposal/prepare/commit exchange) -/
+  accepted : Option Nat
 deriving DecidableEq, Repr, Inhabited
 
 /-- `qbftstorage.StoredInstance`: State + DecidedMessage -/
@@ -168,7 +170,7 @@ def saveInstance (c : Ctrl) (st : Store) (i : Inst) (m : Msg) : Store :=
 inductive StartErr | pastHeight | alreadyRunning
 deriving DecidableEq, Repr
 
-def newInst (h : Nat) : Inst := ⟨h, Gen.heights_FirstRound, false, false, []⟩
+def newInst (h : Nat) : Inst := ⟨h, Gen.heights_FirstRound, false, false, [], none⟩
 
 /-- `Controller.StartNewInstance` (the value check is passed: the harness always hands in a valid value) -/
 def startNewInstance (c : Ctrl) (h : Nat) : Except StartErr Ctrl :=
@@ -199,7 +201,7 @@ deriving DecidableEq, Repr
     Then the three branches: no instance / instance not decided / decided before (per-(round, root) comparison). -/
 def decidedBranch (c : Ctrl) (st : Store) (h : Nat) (m : Msg) : List Inst × Bool :=
   match instanceForHeight c st h with
-  | none => (addNew c.insts ⟨h, m.round, true, false, [m]⟩, true)
+  | none => (addNew c.insts ⟨h, m.round, true, false, [m], none⟩, true)
   | some (i, inMem0) =>
     let insts0 := if inMem0 then c.insts else addNew c.insts i
     let inMem := (find insts0 h).isSome
@@ -230,14 +232,60 @@ def uponDecided (c : Ctrl) (st : Store) (h : Nat) (m : Msg) : Ctrl × Store × D
   let c2 : Ctrl := { c1 with height := if c.height < h then h else c.height }
   (c2, st', if prevDecidedOf c st h then .dup else .new)
 
+/-- `SignedMessage.MatchedSigners` -/
+def sameSigners (a b : List Nat) : Bool := a.length == b.length && a.all (fun x => b.contains x)
+
+/-- the signer list `LongestUniqueSignersForRoundAndRoot` returns (the first longest greedy union) -/
+def longestList : List (List Nat) → List Nat
+  | [] => []
+  | m :: rest => if (greedy m rest).length < (longestList rest).length then longestList rest else greedy m rest
+
+def insertNat (x : Nat) : List Nat → List Nat
+  | [] => [x]
+  | y :: ys => if x ≤ y then x :: y :: ys else y :: insertNat x ys
+
+def sortNat (l : List Nat) : List Nat := l.foldr insertNat []
+
+/-- `Controller.UponExistingInstanceMsg` for a commit-type message BELOW quorum (not a decided message by `IsDecidedMsg`):
+    (controller afterwards, outcome, aggregated decided message if the instance reaches a quorum).
+    `isFutureMessage`; `InstanceForHeight` (a reloaded instance is a temporary object: its update is lost);
+    `Instance.ProcessMsg`: forceStop, past round, no accepted proposal, `validateCommit` (one signer, round = State.Round,
+    root = proposal root); `UponCommit`: `AddFirstMsgForSignerAndRound` (ignored if that signer set is already filed in
+    the round), quorum by `LongestUniqueSignersForRoundAndRoot`, aggregate. The controller broadcasts an aggregate but
+    never saves on this path. (Round cut-off not modelled.) -/
+def existingMsg (q : Nat) (c : Ctrl) (st : Store) (h : Nat) (m : Msg) : Ctrl × DOut × Msg :=
+  if (c.height == Gen.heights_FirstHeight && (find c.insts c.height).isNone) || decide (c.height < h) then (c, .err, m)
+  else
+    match instanceForHeight c st h with
+    | none => (c, .err, m)
+    | some (i, inMem) =>
+      if inMem && i.stopped then (c, .err, m)
+      else if m.round < i.round then (c, .err, m)
+      else
+        match i.accepted with
+        | none => (c, .err, m)
+        | some root =>
+          if m.signers.length ≠ 1 || m.round ≠ i.round || m.root ≠ root then (c, .err, m)
+          else if i.commits.any (fun x => x.round == m.round && sameSigners x.signers m.signers) then (c, .dup, m)
+          else
+            let cs := i.commits ++ [m]
+            let reached := decide (q ≤ longest cs m.round m.root)
+            let i' : Inst := { i with commits := cs, decided := i.decided || reached }
+            let c' : Ctrl := if inMem then { c with insts := replaceInst i' c.insts } else c
+            (c', if reached && !i.decided then .new else .dup,
+              if reached then ⟨m.round, m.root, sortNat (longestList (bucket cs m.round m.root))⟩ else m)
+
 /-- `Controller.ProcessMsg` for a commit-type message with the given signers.
-    `ok` = identifier matches and (if it is a decided message) `ValidateDecided` passes.
-    A commit message below quorum goes to `isFutureMessage` / `UponExistingInstanceMsg`, which in this engine always ends in
-    an error without a state change (no instance ever has an accepted proposal). -/
+    `ok` = identifier matches and `ValidateDecided` (decided message) resp. `BaseCommitValidation` (below quorum) passes.
+    At or above quorum it is a decided message (`IsDecidedMsg`) → `UponDecided`; below → `UponExistingInstanceMsg`. -/
 def processMsg (q : Nat) (c : Ctrl) (st : Store) (h : Nat) (m : Msg) (ok : Bool) : Ctrl × Store × DOut :=
   if !ok then (c, st, .err)
-  else if m.signers.length < q then (c, st, .err)
+  else if m.signers.length < q then ((existingMsg q c st h m).1, st, (existingMsg q c st h m).2.1)
   else uponDecided c st h m
+
+/-- the decided message `ProcessMsg` returns: the message itself, or the aggregate of a commit quorum -/
+def retMsg (q : Nat) (c : Ctrl) (st : Store) (h : Nat) (m : Msg) (ok : Bool) : Msg :=
+  if ok && decide (m.signers.length < q) then (existingMsg q c st h m).2.2 else m
 
 /-- `instance.Compact` applied to the in-memory instance of height `h` (`compactInstanceIfNeeded`) -/
 def compactAt (c : Ctrl) (h : Nat) : Ctrl :=
@@ -339,7 +387,7 @@ def decidedViaRunner (s : State) (h : Nat) (m : Msg) (ok : Bool) : State × Out 
   let r2 := syncRun s.r c2
   let saves := runnerSaves s.r h p.2.2
   ({ s with c := c2,
-            s := if saves then saveFound c2 p.2.1 h m else p.2.1,
+            s := if saves then saveFound c2 p.2.1 h (retMsg s.q s.c s.s h m ok) else p.2.1,
             -- decoded, highestDecidedSlot set, value valid: State.DecidedValue set
             r := if saves then { r2 with hds := h, hasValue := true } else r2 },
    runnerOut s.r h p.2.2)
@@ -372,7 +420,7 @@ def decidedViaRunnerSF (s : State) (h : Nat) (m : Msg) (ok : Bool) : State × Ou
   let r2 := syncRun s.r c2
   let saves := runnerSaves s.r h p.2.2
   ({ s with c := c2,
-            s := if saves && consumed then saveFound c2 s.s h m else s.s,
+            s := if saves && consumed then saveFound c2 s.s h (retMsg s.q s.c s.s h m ok) else s.s,
             r := if saves then { r2 with hds := h, hasValue := true } else r2 },
    runnerOut s.r h p.2.2)
 
@@ -389,8 +437,8 @@ def commitsStep (s : State) (root : Nat) (valOk : Bool) : State × Out :=
   | some _, some rh =>
     match find s.c.insts rh with
     | some i =>
-      if !i.decided && i.commits.isEmpty && !i.stopped && i.round == Gen.heights_FirstRound then
-        let i' : Inst := { i with decided := true, commits := singles s.q root }
+      if !i.decided && i.commits.isEmpty && !i.stopped && i.round == Gen.heights_FirstRound && i.accepted.isNone then
+        let i' : Inst := { i with decided := true, commits := singles s.q root, accepted := some root }
         let c' : Ctrl := { s.c with insts := replaceInst i' s.c.insts }
         let cert : Msg := ⟨Gen.heights_FirstRound, root, List.range' 1 s.q⟩
         if s.r.hasValue then
